@@ -64,7 +64,7 @@ def run(chk):
                          {"source": c["good"], "rule": c["rule"], "position": c["position"], "kind": "over-rejection"})
     # declaration / final rules: random statement trees through the Lean walk (Props/C16: the walk is the rule system) and the analyser
     import scopetree
-    gens = [scopetree.Gen(chk.rng) for _ in range(4000 if chk.thorough else 500)]
+    gens = [scopetree.Gen(chk.rng) for _ in range(40000 if chk.thorough else 500)]
     trees = [g.program() for g in gens]
     souts, _inc2 = run_guarded(evallib.harness(), ["run %s 0 -" % evallib.hx(scopetree.source(t)) for t in trees], chunk_timeout=600)
     smod = driver(["scope " + " ".join(scopetree.code(t)) for t in trees])[0]
